@@ -161,6 +161,25 @@ Example C06_first_sub_batch_only_leaves_locks :
   run_parts (TCommitSec [1; 2; 3; 4]) [[1]] st0 = [(2, Prew); (3, Prew); (4, Prew)].
 Proof. vm_compute. auto. Qed.
 
+(* schedules: the asynchronous rollback of a failed LockKeys carries the for-update ts of that call (fixed
+   when the task is created), so however late it runs it cannot remove a lock that a retried call
+   acquired with a newer ts (seeded change C01-5 snapshots the ts when the task RUNS) *)
+Theorem C06_late_rollback_spares_newer_locks :
+  forall ks f s k f', In (k, Pess f') s -> f < f' -> In (k, Pess f') (run_task (TPessRb ks f) s).
+Proof. exact late_rollback_spares_newer. Qed.
+Print Assumptions C06_late_rollback_spares_newer_locks.
+
+Definition late_rollback_run : list ev :=
+  [ELock [1; 2] false false false 10 (mkLO false false [1] [] 0 (Some FNoWait));
+   ELock [1; 2] false false false 20 (mkLO false false [1; 2] [] 0 None);
+   ERun 0].
+Example C06_late_rollback_after_retry :
+  wf_run (init true) late_rollback_run /\
+  tasks (run (init true) (firstn 2 late_rollback_run)) = [TPessRb [1; 2] 10] /\
+  let s := run (init true) late_rollback_run in
+  store s = [(1, Pess 20); (2, Pess 20)] /\ flags s = [1; 2] /\ tasks s = [].
+Proof. split; [wf_solve|]. vm_compute. auto. Qed.
+
 (* ---- regression replays of the fixed findings F19 / F19b ---- *)
 Definition ok_lock (ks : list key) : lock_out := mkLO false false ks [] 0 None.
 
